@@ -18,6 +18,20 @@ def _p(pid, **kw):
     PROPERTIES[pid] = kw
 
 
+NOT_APPLICABLE = {}
+
 _p("C17", modules=["quic_varint", "quic_frame"], level="proof",
+   level_text="Every obligation generated from the real source of quic_decode.py and quic_frame.py is discharged by z3 with no bound on "
+              "payload length, field values, number of frames or number of ACK ranges: the two varint helpers equal their RFC 9000 "
+              "section 16 spec; each of the 22 constructors satisfies its well-formed contract (all varint widths, non-minimal included) and its "
+              "arbitrary-bytes contract (IndexError or length >= 1, data attributes are windows of the packet); parse_frames terminates "
+              "(variant len(payload)), dispatches every first byte as RFC 9000/9221 say, and splits a well-formed sequence of symbolic length "
+              "into exactly its frames (tiling invariant). The property statement is these postconditions.",
+   level_note="trusted: z3; the encoding assumptions of DESIGN 3.2 (ints mathematical, len < 2^53); ghost description of a well-formed "
+              "sequence (pos strictly increasing = partial sums of positive lengths) is an assumed arithmetic lemma; a maximal PADDING run counts as one frame; "
+              "ack_ranges contents and GenericFrame payload are not specified by the property and not checked",
+   design_ref="DESIGN.md 4 C17",
    explanation="",
-   assumptions=[], trusted_base=[], not_under_contract=[])
+   assumptions=["lemma (not machine-checked): partial sums of positive frame lengths are strictly increasing (used once, at loop exit of parse_frames.wf)",
+                "RFC 9000 19.1 PADDING: a maximal run of 0x00 bytes is treated as one frame of that length"],
+   trusted_base=[], not_under_contract=["PseudoVersionNegotiationFrame (not an RFC frame type; not in the dispatch table)"])
